@@ -132,6 +132,7 @@ Definition op_name (o : opkind) : str :=
 
 Inductive lexeme :=
 | LIdent (dash : bool) (e0 : el) (els : list el)
+| LFunction (dash : bool) (e0 : el) (els : list el)      (* ident immediately followed by '(' *)
 | LHash (els : list el)
 | LAt (dash : bool) (e0 : el) (els : list el)
 | LNum (n : num)
@@ -149,6 +150,7 @@ Definition ident_text (d : bool) (e0 : el) (els : list el) : str := dash_text d 
 Definition text (l : lexeme) : str :=
   match l with
   | LIdent d e0 els => ident_text d e0 els
+  | LFunction d e0 els => ident_text d e0 els ++ [40%N]
   | LHash els => 35%N :: render els
   | LAt d e0 els => 64%N :: ident_text d e0 els
   | LNum n => num_text n
@@ -164,7 +166,7 @@ Definition text (l : lexeme) : str :=
 (* name of the production that recognises the lexeme *)
 Definition cls (l : lexeme) : str :=
   match l with
-  | LIdent _ _ _ => s "IDENT" | LHash _ => s "HASH" | LAt _ _ _ => s "ATKEYWORD"
+  | LIdent _ _ _ => s "IDENT" | LFunction _ _ _ => s "FUNCTION" | LHash _ => s "HASH" | LAt _ _ _ => s "ATKEYWORD"
   | LNum _ => s "NUMBER" | LPct _ => s "PERCENTAGE" | LDim _ _ _ _ => s "DIMENSION"
   | LStr _ _ => s "STRING" | LComment _ _ _ => s "COMMENT" | LWs _ => s "S"
   | LOp o => op_name o | LDelim _ => s "CHAR"
@@ -185,10 +187,16 @@ Definition tokval (name found : str) : str * str :=
 Definition classify (l : lexeme) : str * str := tokval (cls l) (text l).
 
 (* ---- well-formedness of a lexeme relative to the text that follows (adjacency) ---- *)
-Definition first_plain_ok (d : bool) (e0 : el) : bool :=
-  (* no-dash identifiers starting with u / U / an escape compete with URI and UNICODE-RANGE:
-     not covered by the general theorem (see wf_lexeme_u in LexemeFacts) *)
-  d || match e0 with P c => negb (N.eqb c 85) && negb (N.eqb c 117) | _ => false end.
+(* no-dash identifiers starting with u / U / an escape compete with URI and UNICODE-RANGE.  Covered by the
+   theorems: a plain u / U whose next character is not r, R, a backslash or '+' (u_safe); identifiers
+   beginning ur..., u\..., or with an escape: finite sweep only *)
+Definition u_safe (nxt : str) : bool :=
+  hd_not (fun c => N.eqb c 82 || N.eqb c 114 || N.eqb c 92 || N.eqb c 43) nxt.
+Definition first_plain_ok (d : bool) (e0 : el) (nxt : str) : bool :=
+  d || match e0 with
+       | P c => if N.eqb c 85 || N.eqb c 117 then u_safe nxt else true
+       | _ => false
+       end.
 
 Definition wf_ident (d : bool) (e0 : el) (els : list el) (rest : str) : bool :=
   wf_el nmstart_plain false e0 (render els ++ rest) && wf_els nmchar_plain false els rest &&
@@ -208,9 +216,39 @@ Definition fast (c : N) : bool := mem c fastchars.
    token ('*' '/' '.' '+' '-' '<' '@' '#' '~' '|' '^' '$' depend on what follows: harness only) *)
 Definition pure_delims : str := s "()!=&%?`" ++ [1%N; 127%N].
 
+(* can an identifier start here?  nmstart character, non-ASCII, or a backslash that begins an escape
+   (followed by anything but a newline character) *)
+Definition is_nlc (c : N) : bool := in_ranges c [(10,10); (13,13); (12,12)]%N.
+Definition nmstart_at (t : str) : bool :=
+  match t with
+  | c :: r => nmstart_plain c ||
+              (N.eqb c 92 && match r with c2 :: _ => negb (is_nlc c2) | [] => false end)
+  | [] => false
+  end.
+Definition ident_at (t : str) : bool :=
+  match t with 45%N :: r => nmstart_at r | _ => nmstart_at t end.
+Definition dot_digit (t : str) : bool := match t with 46%N :: d :: _ => is_dig d | _ => false end.
+
+(* the delimiters whose class depends on what follows: sufficient (and, except for '/' and '@'
+   followed by a lone backslash, necessary) conditions for the character to be a CHAR token *)
+Definition ctx_delim_ok (c : N) (rest : str) : bool :=
+  if mem c (s "~|^$*") then hd_not (is_c 61) rest                       (* not the match operator *)
+  else if N.eqb c 47 then hd_not (is_c 42) rest                          (* not a comment opener *)
+  else if N.eqb c 46 then hd_not is_dig rest                             (* not a fraction *)
+  else if N.eqb c 43 then hd_not is_dig rest && negb (dot_digit rest)    (* not a signed number *)
+  else if N.eqb c 60 then negb (starts (s "!--") rest)                   (* not CDO *)
+  else if N.eqb c 64 then negb (ident_at rest)                           (* not an at-keyword *)
+  else if N.eqb c 35 then hd_not nm_cont rest                            (* not a hash *)
+  else if N.eqb c 45 then negb (nmstart_at rest) && hd_not is_dig rest && negb (dot_digit rest) &&
+                          negb (starts (s "->") rest)                    (* not ident / number / CDC *)
+  else false.
+
 Definition ok_follow (l : lexeme) (rest : str) : bool :=
   match l with
-  | LIdent d e0 els => wf_ident d e0 els rest && first_plain_ok d e0 && hd_not (is_c 40) rest
+  | LIdent d e0 els => wf_ident d e0 els rest && first_plain_ok d e0 (render els ++ rest) &&
+                       (hd_not (is_c 40) rest || eqs (lower (ident_text d e0 els)) (s "and"))   (* the and( exception *)
+  | LFunction d e0 els => wf_ident d e0 els (40%N :: rest) && first_plain_ok d e0 (render els ++ 40%N :: rest) &&
+                          negb (eqs (lower (ident_text d e0 els)) (s "and"))
   | LHash els => negb (Nat.eqb (length els) 0) && wf_els nmchar_plain false els rest && hd_not nm_cont rest
   | LAt d e0 els => wf_ident d e0 els rest &&
                     negb (eqs (ident_text d e0 els) (s "charset") && starts (s " ") rest)
@@ -222,5 +260,5 @@ Definition ok_follow (l : lexeme) (rest : str) : bool :=
   | LComment seg0 st0 gs => forallb not_star seg0 && forallb wf_group gs
   | LWs xs => negb (Nat.eqb (length xs) 0) && forallb is_ws xs && hd_not is_ws rest
   | LOp o => true
-  | LDelim c => fast c || mem c pure_delims
+  | LDelim c => fast c || mem c pure_delims || ctx_delim_ok c rest
   end.
